@@ -19,7 +19,8 @@ import (
 // "i" rpc.serverInfo call, "d" call with the id of the first call of the sequence
 // (duplicate), "g"/"h" gated call / notification, "q"/"p" call / notification whose
 // handler awaits a Callback with its own context, "z" notification with an explicit
-// "id":null; "[..]" wraps members into a batch.
+// "id":null, "e" notification whose handler fails with a protocol error code; "[..]" wraps members
+// into a batch.
 
 type memberSpec struct {
 	Kind   byte
@@ -38,9 +39,9 @@ type msgSpec struct {
 
 func (m *memberSpec) isCall() bool { return strings.IndexByte("cfuidgq", m.Kind) >= 0 }
 func (m *memberSpec) isNote() bool {
-	return m.Kind == 'n' || m.Kind == 'v' || m.Kind == 'h' || m.Kind == 'p' || m.Kind == 'z'
+	return m.Kind == 'n' || m.Kind == 'v' || m.Kind == 'h' || m.Kind == 'p' || m.Kind == 'z' || m.Kind == 'e'
 }
-func (m *memberSpec) hasHandler() bool { return strings.IndexByte("cfndghpqz", m.Kind) >= 0 }
+func (m *memberSpec) hasHandler() bool { return strings.IndexByte("cfndghpqze", m.Kind) >= 0 }
 
 // buildSeq turns tokens into concrete messages with fresh ids.
 func buildSeq(tokens []string) []*msgSpec {
@@ -75,7 +76,7 @@ func buildSeq(tokens []string) []*msgSpec {
 				}
 				m.Method = name
 				m.JSON = fmt.Sprintf(`{"jsonrpc":"2.0","id":%s,"method":%q}`, m.ID, m.Method)
-			case 'n', 'h', 'p':
+			case 'n', 'h', 'p', 'e': // 'e': a notification whose handler fails with the InvalidRequest / ParseError code
 				m.Method = name
 				m.JSON = fmt.Sprintf(`{"jsonrpc":"2.0","method":%q}`, m.Method)
 			case 'z': // a notification spelled with an explicit null id
@@ -167,6 +168,13 @@ func (h *seqHarness) handler() jrpc2.Handler {
 		}
 		// the context is observed atomically with the log append (arguments evaluated after the scheduling point)
 		vs.Yield("h_exit")
+		if req.Method()[0] == 'e' {
+			vs.Note("h_exit", req.Method(), req.ID(), tok, ctxErrStr(ctx), "error")
+			if h.tok%2 == 0 {
+				return nil, fmt.Errorf("wrapped: %w", jrpc2.Errorf(jrpc2.ParseError, "refused %s", tok))
+			}
+			return nil, jrpc2.Errorf(jrpc2.InvalidRequest, "refused %s", tok)
+		}
 		if req.Method()[0] == 'f' {
 			vs.Note("h_exit", req.Method(), req.ID(), tok, ctxErrStr(ctx), "error")
 			return nil, jrpc2.Errorf(jrpc2.Code(77), "failed %s", tok)
